@@ -170,11 +170,11 @@ def gen_phase3(tier, rng):
     one case, Mask1D histories, directed large masks (an index does not fit 8 bits)"""
     big = tier == "thorough"
     i = 0
-    # ---- sibling util functions: every mask with H*W <= 6 [9]
+    # ---- sibling util functions: every mask with H*W <= 5 and every third mask with H*W = 6 [every mask with H*W <= 9]
     for (h, w) in shapes_upto(9 if big else 6):
         for m in all_masks(h, w):
             i += 1
-            yield {"op": "util2", "m": m, "k": i % 4}
+            if big or h * w <= 5 or i % 3 == 0: yield {"op": "util2", "m": m, "k": i % 4}
     for _ in range(300 if big else 25):
         h, w = rng.randint(1, 9), rng.randint(1, 9)
         yield {"op": "util2", "m": rand_mask(rng, h, w), "k": rng.randrange(4)}
@@ -242,9 +242,9 @@ def gen_phase3(tier, rng):
             yield {"op": "maskhist1", "r": list(bits), "ops": gen_mops1(rng, list(bits))}
     # ---- directed: a dimension / a flat index / a slim index beyond 255 and 256 (an index stored in 8 bits wraps), sparse and
     #      dense, last pixel unmasked; 1-D as well
-    bigshapes = [(1, 300), (300, 1), (17, 16), (2, 135), (129, 2)] + ([(1, 1030), (260, 3), (33, 32)] if big else [])
+    bigshapes = [(1, 262), (259, 1), (17, 16)] + ([(2, 135), (129, 2), (1, 1030), (260, 3), (33, 32)] if big else [])
     for (h, w) in bigshapes:
-        for dens in (0.97, 0.02):
+        for dens in ((0.97, 0.02) if big else (0.9,)):
             i += 1
             m = [[rng.random() < dens for _ in range(w)] for _ in range(h)]
             m[h - 1][w - 1] = False; m[0][0] = bool(i & 1); m[h // 2][w // 2] = False
@@ -307,7 +307,7 @@ def gen_base(tier, rng):
                     yield {"op": "hist", "cls": cls, "m": m, "ni": rng.random() < 0.5, "sn": sn, "k": rng.randrange(4), "e": rng.choice(SCALES),
                            "mt": rng.choice(MFORMS), "vt": rng.choice(VFORMS), "ops": gen_ops(rng, m, sn, cls in ("grid", "vector"))}
                 if both or i % 3 == 1:
-                    yield {"op": "maskhist", "m": m, "ops": gen_mops(rng, m)}
+                    yield {"op": "maskhist", "m": m, "ops": gen_mops(rng, m), "all_classes": big}
     for n in range(1, nh + 1):
         for bits in itertools.product([False, True], repeat=n):
             if all(bits): continue
@@ -328,7 +328,7 @@ def gen_base(tier, rng):
         sn = rng.random() < 0.6; cls = rng.choice(hk)
         yield {"op": "hist", "cls": cls, "m": m, "ni": rng.random() < 0.5, "sn": sn, "k": rng.randint(0, 3), "e": rng.choice(SCALES),
                "mt": rng.choice(MFORMS), "vt": rng.choice(VFORMS), "ops": gen_ops(rng, m, sn, cls in ("grid", "vector"))}
-        yield {"op": "maskhist", "m": m, "ops": gen_mops(rng, m)}
+        yield {"op": "maskhist", "m": m, "ops": gen_mops(rng, m), "all_classes": big}
 
 def cmask(m): return clist([clist([cbool(b) for b in r]) for r in m])
 def cgrid(g): return clist([clist([cz(v) for v in r]) for r in g])
@@ -372,6 +372,7 @@ def strided(a):
     if a.ndim == 1:
         big = np.zeros(2 * a.shape[0] + 1, dtype=a.dtype); big[1::2] = a
         return big[1::2]
+    if a.ndim >= 2 and a.shape[0] > 1 and a.shape[1] > 1 and a.shape[0] % 2: return np.asfortranarray(a)      # Fortran-contiguous
     return np.asfortranarray(a[::-1])[::-1]
 
 def make_mask(aa, ma, mt, one_d=False):
@@ -634,6 +635,10 @@ def run_maskhist(aa, inp):
         s1, n2 = np.array(a1.slim), np.array(a2.native)
         exact(s1); exact(n2)
         # the other classes (and the other storage mode) built on the SAME, possibly edited, mask object: one per reading, rotating
+        nread[0] += 1
+        if nread[0] % 2 == 0 and not inp.get("all_classes"):             # every other reading (quick tier), every reading (thorough)
+            if mk.pixels_in_mask != cnt: chk.bad.append("pixels_in_mask of the edited Mask2D")
+            return ([[int(a), int(b)] for a, b in nfs], ints(u), ints(k_), ints(s1), ints2(n2))
         j = len(extra); ni = bool((j // 4) % 2); sn = bool((j // 8) % 2) or j % 4 == 0
         sl = slim_of(native, cur); sx = [7 - v for v in sl]; nx = [[7 - v for v in r] for r in native]
         if j % 4 in (0, 3):
@@ -655,7 +660,7 @@ def run_maskhist(aa, inp):
                          f"{cvec(ints(os_[:, 0]))} {cvec(ints(os_[:, 1]))} {cgrid(ints2(on_[:, :, 0]))} {cgrid(ints2(on_[:, :, 1]))})")
         if mk.pixels_in_mask != cnt: chk.bad.append("pixels_in_mask of the edited Mask2D")
         return ([[int(a), int(b)] for a, b in nfs], ints(u), ints(k_), ints(s1), ints2(n2))
-    extra = []
+    extra = []; nread = [0]
     outs = [read(mask)]
     left = []                                                        # masks left behind by copy / new / invert: must keep their state
     cops = []
@@ -785,6 +790,16 @@ def run_util2(aa, inp):
     if c2.shape != (h, w): raise AssertionError(f"convert_array_2d_to_native: shape {c2.shape}")
     exact(c2)
     cases.append(f"(KArray {cm} true true {cgrid(n1)} {cvec([])} {cvec(ints(c2[~ma0]))} {cgrid(ints2(c2))})")
+    # the anchored functions on Fortran-ordered / negative-stride arrays (the classes copy their input into C order first, the
+    # util functions are public on their own)
+    for lay in (np.asfortranarray, lambda a: np.asfortranarray(a[::-1])[::-1]):
+        slim_case(n1, array_2d_util.array_2d_slim_from(array_2d_native=lay(a1), mask_2d=lay(ma)), "array_2d_slim_from (memory layout)")
+        native_case(s1, array_2d_util.array_2d_native_from(array_2d_slim=strided(b1), mask_2d=lay(ma)), "array_2d_native_from (memory layout)")
+        i2 = np.asarray(mask_2d_util.native_index_for_slim_index_2d_from(mask_2d=lay(ma))).reshape(-1, 2)
+        cases.append("(KNativeForSlim " + cm + " " + clist([ctup([cnat(int(a)), cnat(int(b))]) for a, b in i2]) + ")")
+        for flag in (False, True):
+            t = mask_2d_util.mask_slim_indexes_from(mask_2d=lay(ma), return_masked_indexes=flag)
+            cases.append("(KMaskIdx " + cm + " " + cbool(flag) + " " + clist([cnat(x) for x in ints(t)]) + ")")
     # the mask's own counters, used by every size check
     if mask.pixels_in_mask != cnt or mask.shape_native != (h, w) or mask_2d_util.total_pixels_2d_from(mask_2d=ma) != cnt:
         chk.bad.append("pixels_in_mask / shape_native / total_pixels_2d_from")
